@@ -87,6 +87,21 @@ bool GetBoolEnvironmentVariable(const char *env_var_name, bool &value)
   return true;
 }
 
+// Converts `count` units to the system clock resolution, or fails if the result does not fit.
+template <class Unit>
+static bool ConvertTimeout(std::chrono::system_clock::duration::rep count,
+                           std::chrono::system_clock::duration &value)
+{
+  using Target = std::chrono::system_clock::duration;
+  using Ratio  = std::ratio_divide<typename Unit::period, typename Target::period>;
+  if (count > (std::numeric_limits<Target::rep>::max)() / Ratio::num)
+  {
+    return false;
+  }
+  value = std::chrono::duration_cast<Target>(Unit{count});
+  return true;
+}
+
 static bool GetTimeoutFromString(const char *input, std::chrono::system_clock::duration &value)
 {
   std::chrono::system_clock::duration::rep result = 0;
@@ -116,44 +131,32 @@ static bool GetTimeoutFromString(const char *input, std::chrono::system_clock::d
 
   if (unit == "ns")
   {
-    value = std::chrono::duration_cast<std::chrono::system_clock::duration>(
-        std::chrono::nanoseconds{result});
-    return true;
+    return ConvertTimeout<std::chrono::nanoseconds>(result, value);
   }
 
   if (unit == "us")
   {
-    value = std::chrono::duration_cast<std::chrono::system_clock::duration>(
-        std::chrono::microseconds{result});
-    return true;
+    return ConvertTimeout<std::chrono::microseconds>(result, value);
   }
 
   if (unit == "ms")
   {
-    value = std::chrono::duration_cast<std::chrono::system_clock::duration>(
-        std::chrono::milliseconds{result});
-    return true;
+    return ConvertTimeout<std::chrono::milliseconds>(result, value);
   }
 
   if (unit == "s")
   {
-    value = std::chrono::duration_cast<std::chrono::system_clock::duration>(
-        std::chrono::seconds{result});
-    return true;
+    return ConvertTimeout<std::chrono::seconds>(result, value);
   }
 
   if (unit == "m")
   {
-    value = std::chrono::duration_cast<std::chrono::system_clock::duration>(
-        std::chrono::minutes{result});
-    return true;
+    return ConvertTimeout<std::chrono::minutes>(result, value);
   }
 
   if (unit == "h")
   {
-    value =
-        std::chrono::duration_cast<std::chrono::system_clock::duration>(std::chrono::hours{result});
-    return true;
+    return ConvertTimeout<std::chrono::hours>(result, value);
   }
 
   if (unit == "")
@@ -161,9 +164,7 @@ static bool GetTimeoutFromString(const char *input, std::chrono::system_clock::d
     // TODO: The spec says milliseconds, but opentelemetry-cpp implemented
     // seconds by default. Fixing this is a breaking change.
 
-    value = std::chrono::duration_cast<std::chrono::system_clock::duration>(
-        std::chrono::seconds{result});
-    return true;
+    return ConvertTimeout<std::chrono::seconds>(result, value);
   }
 
   // Failed to parse the input string.
